@@ -169,6 +169,9 @@ def run(rep: common.Report, tier: str, seed: int, replay=None) -> int:
     for k in range(2 if tier == "quick" else 8):
         specs.append(dict(shape=["box", "ellipse"][k % 2], holes=0, terminals=[2, 4][k % 2], smooth=0, max_edge_length=[0.5, 0.8][k % 2],
                           xi=0.5, pad=True))
+    # coherence length far from the device size: the dimensionless mesh is then tiny (edges ~1e-5) or huge (edges ~1e4)
+    specs.append(dict(shape="box", holes=1, terminals=2, smooth=0, max_edge_length=0.8, xi=3e4))
+    specs.append(dict(shape="ellipse", holes=0, terminals=0, smooth=0, max_edge_length=0.7, xi=2e-4))
     texts, infos = [], []
     for mi, spec in enumerate(specs):
         try:
